@@ -734,6 +734,53 @@ def oracle(inp):
       return fail("failure-weighted EI incumbent is not the best observation with success probability > 1/2 (fallback: lowest value)", float(eif.best_value), want)
   if numpy.abs(vf - eif._evaluate_at_point_list_normalized(corf) * pp).max() > 1e-12 * (1 + numpy.abs(vf).max()):
     return fail("failure-weighted EI is not EI times the success probability", vf.tolist(), None)
+  # multi-step sequence on live objects (what the constant-liar loop does from its second pick on): after lie locations were appended
+  # the incumbent is still the documented one - lies carry the worst observed value, so they can neither be the lowest observation nor
+  # the best likely-successful one; for the augmented form the incumbent fixed at construction or one recomputed on the lie-augmented
+  # model are both accepted - and each form is still its EI at that incumbent times its documented factor
+  import copy as _copy
+  if inp.get("lie_sequence", True):
+    lies = numpy.atleast_2d(xs[: 1 + (len(xs) > 1)])
+    def build(which):
+      g2 = gpgen.make_gp(gi)
+      if which == "plain":
+        return ExpectedImprovement(g2), None
+      if which == "aug":
+        return AugmentedExpectedImprovement(g2), None
+      pr = ProductOfListOfProbabilisticFailures([ProbabilisticFailures(gpgen.make_gp(gi), thr[0]), ProbabilisticFailuresCDF(gpgen.make_gp(gi), thr[1])])
+      return ExpectedImprovementWithFailures(g2, pr), pr
+    for which in ("plain", "aug", "fail"):
+      af, pr = build(which)
+      b0 = float(af.best_value)
+      af.append_lie_locations(lies.copy())
+      b1 = float(af.best_value)
+      vals_now = numpy.asarray(af.predictor.points_sampled_value, dtype=float)
+      if which == "plain":
+        ok = b1 == float(vals_now.min())
+      elif which == "fail":
+        p_now = pr.compute_probability_of_success(af.predictor.points_sampled)
+        if (numpy.abs(p_now - 0.5) < 1e-9).any():
+          ok = True
+        else:
+          acc = vals_now[p_now > 0.5]     # the incumbent fixed at construction, or the rule re-applied to the lie-augmented data
+          ok = b1 == b0 or b1 == (float(acc.min()) if len(acc) else float(vals_now.min()))
+      else:
+        m2, v2 = af.predictor.compute_mean_and_variance_of_points(af.predictor.points_sampled)
+        q2 = m2 + 0.6744897501960817 * numpy.sqrt(v2)
+        ok = b1 == b0 or abs(b1 - float(m2[int(numpy.argmin(q2))])) <= 1e-9 * (1 + abs(b1))
+      if not ok:
+        return fail(f"{which} EI: after lie locations were appended the incumbent is no longer the documented one", b1, dict(before=b0))
+      v_after = af.evaluate_at_point_list(xs)
+      m3, v3 = af.predictor.compute_mean_and_variance_of_points(xs)
+      for i in range(len(xs)):
+        q = ei_quadrature(float(m3[i]), float(math.sqrt(v3[i])), b1)
+        fac = 1.0
+        if which == "aug":
+          fac = 1 - math.sqrt(float(af.noise_variance) / (float(v3[i]) + float(af.noise_variance)))
+        elif which == "fail":
+          fac = float(pr.compute_probability_of_success(xs[i:i + 1])[0])
+        if abs(float(v_after[i]) - q * fac) > 1e-7 * max(math.sqrt(v3[i]), 1e-12) + 1e-9 * abs(q) + 1e-300:
+          return fail(f"{which} EI after appended lies is not E[max(best - Y, 0)] at the documented incumbent times its factor", float(v_after[i]), q * fac)
   if inp.get("task_cost") is not None and xs.shape[1] >= 2:
     m = MultitaskAcquisitionFunction(ei)
     xt = xs.copy()
